@@ -159,11 +159,16 @@ def _segment(ctx, lid, code, tag=""):
     return s
 
 
-def h_xcopy(ctx, lid, targets, segments, inline_len, set_name="spc"):
+def h_xcopy(ctx, lid, targets, segments, inline_len, set_name="spc", stale_length=False):
     spec = L.CDB["EXTENDED COPY(LID1)" if lid == 1 else "EXTENDED COPY(LID4)"]
     opcode = K.lookup_opcode(spec, set_name)
     tl = [_target(ctx, lid, pdt, des, "t%d_" % i) for i, (pdt, des) in enumerate(targets)]
     sl = [_segment(ctx, lid, code, "s%d_" % i) for i, code in enumerate(segments)]
+    if stale_length:
+        # the dictionary already carries a DESCRIPTOR LENGTH (left there by an earlier marshalling of another
+        # segment type, or supplied by the caller): the emitted length must still be the one that follows
+        for i, sd in enumerate(sl):
+            sd["descriptor_length"] = ctx.int("stale_len%d" % i, 16)
     inline = ctx.bytes("inline", inline_len)
     want_t = [dict(t) for t in tl]
     want_s = [dict(s) for s in sl]
@@ -229,6 +234,9 @@ def obligations(tier):
             add("xcopy%d/target/pdt=%d" % (lid, pdt), "h_xcopy", lid=lid, targets=[[pdt, "naa5"]], segments=[], inline_len=0)
         for code in (0, 11, 1, 12, 2, 13):
             add("xcopy%d/segment/%02x" % (lid, code), "h_xcopy", lid=lid, targets=[], segments=[code], inline_len=0)
+        for code in (0, 2):
+            add("xcopy%d/segment/%02x/stale-descriptor-length" % (lid, code), "h_xcopy", lid=lid, targets=[], segments=[code],
+                inline_len=0, stale_length=True)
         for il in ((0, 1, 9) if q else range(0, 10)):
             add("xcopy%d/two-targets-two-segments/inline=%d" % (lid, il), "h_xcopy", lid=lid,
                 targets=[[0, "naa5"], [1, "eui8"]], segments=[2, 0], inline_len=il)
